@@ -14,7 +14,7 @@ PROPERTY = "C07"
 LEVEL = "exploration"
 TECHNIQUE = "Hypothesis-generated directive sequences (values as expression trees with boundary/negative/over-wide magnitudes, forward/backward symbols, binary files crossing bank ends) compared byte-for-byte with a direct little-endian model and the textbook bus model"
 RULE = (
-    "programs `*=ORG`, 1-4 directives from {.db,.dw,.dl,.pointer (1-40 values), .ascii, .incbin}, each followed by a self-pointer label (`lb: .dl lb`), ORG drawn from window "
+    "programs [`*=P` + a 1-2 byte .db/.dw/.ascii block], `*=ORG`, 1-4 directives from {.db,.dw,.dl,.pointer (1-40 values), .ascii, .incbin}, each followed by a self-pointer label (`lb: .dl lb`), ORG drawn from window "
     "starts / middles / the last bytes before a bank end in primary and mirror banks of LoROM and HiROM; values are literals (0, +-1, 0x7F..0x101, 0xFFFF..0x10001, 0xFFFFFF..0x1000001, up to 2^40, negative), "
     "expressions, := constants, backward and forward labels; files have lengths {0,1,2,0x7FFF,0x8000,0x8001,0xFFFF,0x10000, random<=70000}.  Oracle: flattened writes == expected "
     "(offset, byte) list; incbin start/size symbols read back through .dl probes; label after each directive == start advanced by its byte count.  Non-trivial = a value wider than its field, "
